@@ -225,7 +225,7 @@ DecodeChecks(e) ==
         THEN \* the item alone is judged for C01/C02; the buffer with its suffix for C13
              OutcomeChecks(e.kts[q], SubSeq(b, 1, ilen), e.alone[q], D(q), e.tab, "C02", RejProp(D(q)), e.facts)
              \o <<Chk("C13", "same_outcome_with_suffix:" \o KBase(e.kts[q]),
-                      e.res[q].kind = e.alone[q].kind /\ e.res[q].core = e.alone[q].core),
+                      e.res[q].kind = e.alone[q].kind /\ e.res[q].core = e.alone[q].core /\ e.res[q].err = e.alone[q].err),
                   Chk("C13", "advances_by_item_length",
                       e.res[q].kind = "ok" => e.res[q].rest = Len(b) - ilen)>>
         ELSE OutcomeChecks(e.kts[q], b, e.res[q], D(q), e.tab, "C02", RejProp(D(q)), e.facts)
